@@ -8,6 +8,10 @@ package golang
 // (fsKind[p]: 0 nothing, 1 directory, 2 regular file, 3 other; fsData[p]: abstract content).
 
 //@ import "os"
+//@ import "fmt"
+//@ import auto "github.com/moorara/algo/automata"
+//@ import "github.com/moorara/algo/grammar"
+//@ import "github.com/gardenbed/emerge/internal/ebnf/parser/spec"
 //@ import "path/filepath"
 
 // untouched(): nothing that existed before the call was modified, truncated or deleted.
@@ -50,17 +54,106 @@ package golang
 //@   ensures @created result == nil ==> fsKind[pkgFile(g, "errors.go")] == 2 && fsKind[pkgFile(g, "types.go")] == 2 && fsKind[pkgFile(g, "stack.go")] == 2
 //@     && old(fsKind)[pkgFile(g, "errors.go")] == 0 && old(fsKind)[pkgFile(g, "types.go")] == 0 && old(fsKind)[pkgFile(g, "stack.go")] == 0
 
+// ---- C08: the lists of states and of characters written into the emitted switch statements ----
+// listI(v, k) / listR(v, k): the text after the first k elements, each followed by ", ". An int is written with %d;
+// a character with %q, which fmt documents to be a single-quoted Go character literal safely escaped (A-DEP) - so
+// quotes, backslashes, control and non-ASCII characters are valid Go source denoting exactly that character.
+//@ ghost func listI(v []int, k int) string
+//@ axiom forall v []int :: {listI(v, 0)} listI(v, 0) == ""
+//@ axiom forall v []int, k int :: {listI(v, k)} k > 0 ==> listI(v, k) == listI(v, k-1) + fmt.Sprintf("%d, ", anys(box(v[k-1])))
+//@ ghost func listR(v []rune, k int) string
+//@ axiom forall v []rune :: {listR(v, 0)} listR(v, 0) == ""
+//@ axiom forall v []rune, k int :: {listR(v, k)} k > 0 ==> listR(v, k) == listR(v, k-1) + fmt.Sprintf("%q, ", anys(box(v[k-1])))
+//@ axiom forall f string, a []any :: {fmt.Sprintf(f, a)} len(f) >= 2 && f[len(f)-2] == ',' && f[len(f)-1] == ' ' ==> len(fmt.Sprintf(f, a)) >= 2
+
+//@ func formatInts(vals []int) string
+//@   loop[0] invariant b.s == listI(vals, __i0) && (__i0 > 0 ==> len(b.s) >= 2)
+//@   ensures @empty len(vals) == 0 ==> result == ""
+//@   ensures @comma-separated len(vals) > 0 ==> result == listI(vals, len(vals))[:len(listI(vals, len(vals))) - 2]
+
+//@ func formatRunes(runes []rune) string
+//@   loop[0] invariant b.s == listR(runes, __i0) && (__i0 > 0 ==> len(b.s) >= 2)
+//@   ensures @empty len(runes) == 0 ==> result == ""
+//@   ensures @quoted-comma-separated len(runes) > 0 ==> result == listR(runes, len(runes))[:len(listR(runes, len(runes))) - 2]
+
+// C08: the grouped table is the transition relation - a character is listed under (from, to) exactly if the
+// automaton has the transition from --character--> to.
+//@ import "github.com/moorara/algo/symboltable"
+//@ spec func hasSym(v []rune, a rune) bool = exists j int :: 0 <= j && j < len(v) && v[j] == a
+//@ spec func groupsShape(t symboltable.SymbolTable[int, symboltable.SymbolTable[int, []rune]]) bool =
+//@   t != nil && t.ident && allocated(t.self)
+//@   && (forall s int :: {t.val[s]} s in t.dom ==> t.val[s] != nil && t.val[s].ident && allocated(t.val[s].self) && t.val[s].self != t.self)
+//@   && (forall s1 int, s2 int :: {t.val[s1], t.val[s2]} s1 in t.dom && s2 in t.dom && s1 != s2 ==> t.val[s1].self != t.val[s2].self)
+//@ spec func groupsSound(t symboltable.SymbolTable[int, symboltable.SymbolTable[int, []rune]], trs set[*auto.Transition[auto.State]]) bool =
+//@   forall s int, n int, j int :: {t.val[s].val[n][j]} s in t.dom && n in t.val[s].dom && 0 <= j && j < len(t.val[s].val[n])
+//@     ==> (exists x *auto.Transition[auto.State] :: x in trs && int(x.State) == s && int(x.Next) == n && rune(x.Symbol) == t.val[s].val[n][j])
+//@ spec func groupsComplete(t symboltable.SymbolTable[int, symboltable.SymbolTable[int, []rune]], trs set[*auto.Transition[auto.State]]) bool =
+//@   forall x *auto.Transition[auto.State] :: {x in trs} x in trs
+//@     ==> int(x.State) in t.dom && int(x.Next) in t.val[int(x.State)].dom && hasSym(t.val[int(x.State)].val[int(x.Next)], rune(x.Symbol))
+
 //@ func groupDFAStates(dfa *auto.DFA) symboltable.SymbolTable[int, symboltable.SymbolTable[int, []rune]]
 //@   requires dfa != nil
-//@   loop[0] invariant groups != nil && (forall g symboltable.SymbolTable[int, []rune] :: {g in groups.vals} g in groups.vals ==> g != nil)
-//@   ensures result != nil && (forall g symboltable.SymbolTable[int, []rune] :: {g in result.vals} g in result.vals ==> g != nil)
+//@   loop[0] invariant groupsShape(groups) && fresh(groups.self)
+//@   loop[0] invariant forall s int :: {groups.val[s]} s in groups.dom ==> fresh(groups.val[s].self)
+//@   loop[0] invariant groupsSound(groups, __vis0)
+//@   loop[0] invariant groupsComplete(groups, __vis0)
+//@   ensures @shape groupsShape(result)
+//@   ensures @only-transitions groupsSound(result, dfa.trs)
+//@   ensures @every-transition groupsComplete(result, dfa.trs)
 
 //@ func (g *generator) generateLexer$1(s auto.State) int
+//@   ensures @same-number result == int(s)
+
+// C08: the accepting table handed to the template is the state map Spec.DFA returned - entry j carries the name of
+// definition j and exactly the states of that terminal, in the same order, as numbers
+//@ spec func finalsFaithful(fs []*DFAFinalStates, defs []*spec.TerminalDef, tm map[grammar.Terminal][]auto.State, n int) bool =
+//@   forall j int :: {fs[j]} 0 <= j && j < n ==> fs[j] != nil && allocated(fs[j]) && fs[j].Terminal == string(defs[j].Terminal) && len(fs[j].States) == len(tm[defs[j].Terminal])
+//@      && (forall m int :: {fs[j].States[m]} 0 <= m && m < len(fs[j].States) ==> fs[j].States[m] == int(tm[defs[j].Terminal][m]))
+
+// C08: the transition list handed to the template is the grouped table - one entry per source state (no state twice),
+// in it one case per target state (no target twice) carrying exactly the characters grouped under (from, to)
+//@ spec func caseOK(c *DFAStateTransition, grp symboltable.SymbolTable[int, []rune]) bool =
+//@   c != nil && allocated(c) && c.Next in grp.dom && c.Symbols == grp.val[c.Next]
+//@ spec func rowOK(t *DFATransition, grp symboltable.SymbolTable[int, []rune], seen set[int]) bool =
+//@   t != nil && allocated(t)
+//@   && (forall m int :: {t.Trans[m]} 0 <= m && m < len(t.Trans) ==> caseOK(t.Trans[m], grp) && t.Trans[m].Next in seen)
+//@   && (forall m1 int, m2 int :: {t.Trans[m1], t.Trans[m2]} 0 <= m1 && m1 < m2 && m2 < len(t.Trans) ==> t.Trans[m1].Next != t.Trans[m2].Next)
+//@   && (forall n int :: {n in seen} n in seen ==> (exists m int :: 0 <= m && m < len(t.Trans) && t.Trans[m].Next == n))
+//@ spec func rowsA(T []*DFATransition, groups symboltable.SymbolTable[int, symboltable.SymbolTable[int, []rune]], seen set[int]) bool =
+//@   (forall i int :: {T[i]} 0 <= i && i < len(T) ==> T[i] != nil && T[i].From in seen && T[i].From in groups.dom && rowOK(T[i], groups.val[T[i].From], groups.val[T[i].From].dom))
+//@ spec func rowsB(T []*DFATransition) bool =
+//@   (forall i1 int, i2 int :: {T[i1], T[i2]} 0 <= i1 && i1 < i2 && i2 < len(T) ==> T[i1].From != T[i2].From)
+//@ spec func rowsC(T []*DFATransition, seen set[int]) bool =
+//@   (forall s int :: {s in seen} s in seen ==> (exists i int :: 0 <= i && i < len(T) && T[i].From == s))
+//@ spec func rowsOK(T []*DFATransition, groups symboltable.SymbolTable[int, symboltable.SymbolTable[int, []rune]], seen set[int]) bool =
+//@   rowsA(T, groups, seen) && rowsB(T) && rowsC(T, seen)
 
 //@ func (g *generator) generateLexer() error
 //@   requires genOK(g) && specWF(g.Params.Spec)
 //@   modifies fsKind, fsData, all(errors.MultiError.n)
+//@   loop[0] invariant data != nil && data.DFA != nil && groupsShape(groups)
+//@   loop[0] invariant rowsA(data.DFA.Transitions, groups, __vis0)
+//@   loop[0] invariant rowsB(data.DFA.Transitions)
+//@   loop[0] invariant rowsC(data.DFA.Transitions, __vis0)
+//@   loop[1] invariant data != nil && data.DFA != nil && groupsShape(groups)
+//@   loop[1] invariant rowsA(data.DFA.Transitions, groups, __vis0)
+//@   loop[1] invariant rowsB(data.DFA.Transitions)
+//@   loop[1] invariant rowsC(data.DFA.Transitions, __vis0)
+//@   loop[1] invariant t != nil && fresh(t) && t.From == from && from in groups.dom && group == groups.val[from] && !(from in __vis0)
+//@   loop[1] invariant rowOK(t, group, __vis1)
+//@   callsite renderTemplate requires @transitions-are-the-grouped-table typeis(arg1, "*lexerData") && unbox(arg1, "*lexerData") != nil && unbox(arg1, "*lexerData").DFA != nil
+//@     && rowsOK(unbox(arg1, "*lexerData").DFA.Transitions, groups, groups.dom)
+//@   callsite renderTemplate requires @grouped-table-is-the-automaton groupsSound(groups, dfa.trs) && groupsComplete(groups, dfa.trs)
+//@   callsite Transform assumes @L-CALLBACK forall x auto.State :: {mapRes(box(arg1), box(x))} mapRes(box(arg1), box(x)) == box(int(x))
 //@   loop[2] invariant data != nil && data.DFA != nil && len(data.DFA.FinalStates) == len(g.Params.Spec.Definitions)
+//@   loop[2] invariant groupsShape(groups) && rowsOK(data.DFA.Transitions, groups, groups.dom)
+//@   loop[2] invariant finalsFaithful(data.DFA.FinalStates, g.Params.Spec.Definitions, termMap, __i2)
+//@   loop[3] invariant data != nil && data.DFA != nil && len(data.DFA.FinalStates) == len(g.Params.Spec.Definitions)
+//@   loop[3] invariant groupsShape(groups) && rowsOK(data.DFA.Transitions, groups, groups.dom)
+//@   loop[3] invariant finalsFaithful(data.DFA.FinalStates, g.Params.Spec.Definitions, termMap, len(g.Params.Spec.Definitions))
+//@   callsite renderTemplate requires @accepting-table-is-the-state-map typeis(arg1, "*lexerData") && unbox(arg1, "*lexerData") != nil && unbox(arg1, "*lexerData").DFA != nil
+//@     && len(unbox(arg1, "*lexerData").DFA.FinalStates) == len(g.Params.Spec.Definitions)
+//@     && finalsFaithful(unbox(arg1, "*lexerData").DFA.FinalStates, g.Params.Spec.Definitions, termMap, len(g.Params.Spec.Definitions))
 //@   loop[3] invariant untouched()
 //@   loop[3] invariant errs == nil && __i3 > 0 ==> old(fsKind)[pkgFile(g, "input.go")] == 0 && fsKind[pkgFile(g, "input.go")] == 2
 //@   loop[3] invariant errs == nil && __i3 > 1 ==> old(fsKind)[pkgFile(g, "lexer.go")] == 0 && fsKind[pkgFile(g, "lexer.go")] == 2
